@@ -21,7 +21,7 @@ func (m *zzStubMapping) Equals(o mapping.IndexMapping) bool {
 	om, ok := o.(*zzStubMapping)
 	return ok && om.id == m.id
 }
-func (m *zzStubMapping) Index(v float64) int              { return zzvUFF64Int("Index", v) }
+func (m *zzStubMapping) Index(v float64) int              { return zzvUFF64MInt("Index", v, -(1 << 31), (1<<31)-1) }
 func (m *zzStubMapping) Value(i int) float64              { return zzvUFIntF64("Value", i) }
 func (m *zzStubMapping) LowerBound(i int) float64         { return zzvUFIntF64("LowerBound", i) }
 func (m *zzStubMapping) RelativeAccuracy() float64        { return 0.01 }
